@@ -97,10 +97,16 @@ def double_precision(ctx: Ctx, F) -> None:
     account kept in single precision, or rates rounded through float32, is off by 1e-8 to 1e-6."""
     from fractions import Fraction as Fr
     gen = torch.Generator().manual_seed(ctx.seed + 9)
-    for N, H, T, cost, first in ((3, 1, 4, [1e-3], True), (2, 2, 5, [1e-3, 3e-4], True), (2, 2, 3, [7e-3, 0.0], False), (1, 3, 2, [1e-2, 2e-2, 5e-4], True), (2, 1, 4, None, True)):
+    # (the last two cases come AFTER the same rate list was used in a float32 computation: the account of one call does not depend
+    #  on the dtype of an earlier call with the same rates)
+    for N, H, T, cost, first in ((3, 1, 4, [1e-3], True), (2, 2, 5, [1e-3, 3e-4], True), (2, 2, 3, [7e-3, 0.0], False), (1, 3, 2, [1e-2, 2e-2, 5e-4], True), (2, 1, 4, None, True),
+                                 (3, 1, 4, [1.3e-3], True), (2, 2, 3, [1.7e-3, 2.9e-4], False)):
         spot = torch.rand(N, H, T, dtype=torch.float64, generator=gen) * 1.7 + 0.3
         unit = torch.randn(N, H, T, dtype=torch.float64, generator=gen)
         payoff = torch.rand(N, dtype=torch.float64, generator=gen) * 0.3
+        if cost in ([1.3e-3], [1.7e-3, 2.9e-4]):
+            for fname in ("pl", "terminal_value"):
+                getattr(F, fname)(spot=spot.float(), unit=unit.float(), cost=cost, payoff=payoff.float(), deduct_first_cost=first)
         exp = []
         for i in range(N):
             tot = -Fr(payoff[i].item())
